@@ -15,6 +15,7 @@ CONSTANTS
   AllowRelax = TRUE
   Prompt = TRUE
   History = FALSE
+  OwnBucket = FALSE
   HistLen = @HISTLEN@
 CONSTRAINT Short
 INVARIANTS Emit UpperVQ NotStarved
